@@ -89,10 +89,10 @@ def _cfg_spin(tier):
     return [{'case': c} for c in ('right', 'left', 'no_twist', 'no_length', 'no_diameter', 'vacuum')]
 
 
-@harness('C05.spin', 'C05', configs=_cfg_spin, functions=FUNCS, engine_opts={'div_check': False},
+@harness('C05.spin', 'C05', configs=_cfg_spin, functions=FUNCS + ['py_ballisticcalc.trajectory_calc._trajectory_calc.TrajectoryCalc._init_trajectory'], engine_opts={'div_check': False},
          must_reach=['check:spin_drift'],
-         bounds='loop-free: all twists (right / left / none), lengths, diameters, weights, muzzle velocities, temperatures, pressures, times',
-         stubs=['pow(., 1/3) and pow(., 1.83) summarised; the oracle applies the same summaries'])
+         bounds='loop-free: the real _init_trajectory on a real shot, then spin_drift: all twists (right / left / none), lengths, diameters, weights, muzzle velocities, temperatures, pressures (or the Vacuum atmosphere), times',
+         stubs=['pow(., 1/3) and pow(., 1.83) summarised; the oracle applies the same summaries; sqrt/exp inside Atmo summarised (not part of the obligation)'])
 def c05_spin(ctx, case):
     p, tc = pybc(), _tc()
     from py_ballisticcalc.interface_config import create_interface_config
@@ -109,12 +109,11 @@ def c05_spin(ctx, case):
     pr = ctx.real('pressure_inhg', 10, 40)
     time = ctx.real('time', 0, 100)
     calc = tc.TrajectoryCalc(create_interface_config(None))
-    calc.twist, calc.length, calc.diameter, calc.weight, calc.muzzle_velocity = tw, ln, d, w, mv
-
-    class _A:           # the two readings the real method takes from the atmosphere
-        temperature = p.Temperature.Fahrenheit(tf)
-        pressure = p.Pressure.InHg(0.0 if case == 'vacuum' else pr)
-    calc.stability_coefficient = calc.calc_stability_coefficient(_A)
+    # the per-shot constants are set by the real _init_trajectory from a real shot (whatever it chooses to precompute)
+    U = p.Unit
+    dm = p.DragModel(0.3, p.TableG7, U.Grain(w), U.Inch(d), U.Inch(ln))
+    atmo = p.Vacuum(U.Foot(0.0), U.Fahrenheit(tf)) if case == 'vacuum' else p.Atmo(U.Foot(0.0), U.InHg(pr), U.Fahrenheit(tf), 0.0)
+    calc._init_trajectory(p.Shot(p.Weapon(U.Inch(2.0), U.Inch(tw)), p.Ammo(dm, U.FPS(mv)), atmo=atmo))
     got = calc.spin_drift(time)
     if case in ('no_twist', 'no_length', 'no_diameter', 'vacuum'):
         ctx.check_eq('spin_drift', got, 0)
@@ -159,3 +158,57 @@ def c05_reuse(ctx):
         else:
             ctx.check_eq('stability_is_for_the_current_shot', calc.stability_coefficient, 0, info={'second': second})
             ctx.check_eq('no_spin_drift_without_dimensions', calc.spin_drift(1.0), 0)
+
+
+def _cfg_machcol(tier):
+    return [{'n': n, 'vacuum': True} for n in ((1, 2, 3) if tier == 'quick' else (1, 2, 3, 4, 5))] + [{'n': 1, 'vacuum': False}]
+
+
+@harness('C05.mach_column', 'C05', configs=_cfg_machcol, allow_cut=['unwind'], cost=4,
+         functions=FUNCS + ['py_ballisticcalc.trajectory_calc._trajectory_calc.TrajectoryCalc._integrate'],
+         engine_opts={'div_check': False, 'nl_axioms_in_feasibility': False},
+         must_reach=['check:row_mach_is_speed_over_the_local_speed_of_sound'],
+         bounds='N = 1..3 (quick) / 1..5 (thorough) real iterations of _integrate in a vacuum (density 0, any drag answer; step durations arbitrary as in C01.vacuum) and one iteration in air, '
+                'from an arbitrary state: the atmosphere is asked once per step at alt0 + the current height, and the Mach column of the terminal row is its speed over the speed of sound '
+                'answered for the step that produced it',
+         stubs=['atmosphere / drag = arbitrary recorded answers (harness/step.py)', 'Vector.magnitude -> fresh symbol per call in the vacuum runs'])
+def c05_mach_column(ctx, n, vacuum):
+    import py_ballisticcalc.vector._vector as vec
+    from harness.step import StepWorld
+    w = StepWorld(ctx, limits='off', max_atmo_calls=n, vacuum=vacuum)
+    ctx.assume((w.wx == 0) & (w.wz == 0))
+    mags = []
+    orig = vec.Vector.magnitude
+
+    class _TooManySteps(Exception):
+        pass
+
+    def magnitude(self):
+        if len(mags) >= 2 * n + 2:
+            raise _TooManySteps()          # more steps than atmosphere answers: the loop ran on without asking
+        r = ctx.real(f'air_speed{len(mags)}', 1.000001, 1e5) if (ctx.symbolic and vacuum) else orig(self)
+        mags.append(r)
+        return r
+    vec.Vector.magnitude = magnitude
+    try:
+        R = ctx.real('max_range', 0, 1e6)
+        try:
+            kind, res = w.run(R, rec=1e9)
+        except _TooManySteps:
+            ctx.check('atmosphere_asked_once_per_step', False, info={'atmosphere_calls': len(w.atmo_calls), 'steps_so_far': len(mags) // 2})
+            return
+    finally:
+        vec.Vector.magnitude = orig
+    if kind != 'ok':
+        return
+    steps = len(mags) // 2
+    ctx.check('atmosphere_asked_once_per_step', len(w.atmo_calls) == steps, info={'atmosphere_calls': len(w.atmo_calls), 'steps': steps})
+    (_t, pos, vel, speed, a_used) = w.row_args[-1][:5]
+    alt_k, _rho, a_k = w.atmo_calls[-1]
+    ctx.check('row_mach_is_speed_over_the_local_speed_of_sound', ctx.same_term(a_used, a_k), info={'steps': steps})
+    row = res[-1]
+    ctx.check_eq('row_mach_is_speed_over_the_local_speed_of_sound', row.mach * a_k, speed, rel=1e-12, info={'steps': steps, 'what': 'column'})
+    # the altitudes asked: alt0 + height of the state each step started from (the first one is the muzzle)
+    ctx.check_eq('atmosphere_asked_at_the_current_altitude', w.atmo_calls[0][0], w.alt0 - w.cc * w.sh)
+    if steps >= 2:
+        ctx.check('atmosphere_asked_at_the_current_altitude', not ctx.same_term(w.atmo_calls[-1][0], w.atmo_calls[0][0]), info={'what': 'later steps ask at their own altitude'})
